@@ -318,12 +318,9 @@ def at_quiescence(v, prop, tier, tag):
     and a merging thread run the stress windows of C04, every thread is joined, and then the counters are compared with an
     independent scan of the files (C19), a restart must read what the store read (C02), with and without hint files (C12)
     - TraceSys: <prop>_AtQuiescence.  A defect of the interleavings shows in the sequential properties only here."""
-    rnd = random.Random(seed() * 977 + 3)
-    items = []
-    for i in range(10 if tier == "quick" else 80):
-        items.append({"kind": "stress", "threads": rnd.choice([2, 3, 4]), "ops": rnd.choice([6, 8]), "keys": rnd.choice([1, 2, 3]),
-                      "windows": 4, "pool": rnd.choice([1, 2, 4]), "cache": rnd.choice([0, 1, 2, 256]),
-                      "max_file": rnd.choice([0, 200, 30000]), "delay_us": rnd.choice([100, 400, 1500]), "merger": True, "clock": False})
+    # the same stress runs as C04's (threads x operations x windows on one or two keys, pool and cache sizes, file sizes,
+    # injected delays, a merging thread)
+    items = [x for x in inputs_for("C04", tier) if x.get("kind") == "stress"]
     work = os.path.join(OUT, "work", tag + "-q")
     os.makedirs(work, exist_ok=True)
     ifile = os.path.join(work, "inputs.jsonl")
